@@ -1,7 +1,9 @@
 """C02 — committed versions return exactly the ingested bytes, forever."""
 from vlib import histprop, oracles, hist
 from vlib.props import _hist_common as hc
-from vlib.props._hist_common import TRUSTED_BASE, ASSUMPTIONS, CORRESPONDENCE, BUDGET
+from vlib.props._hist_common import TRUSTED_BASE, ASSUMPTIONS, CORRESPONDENCE
+# after every operation every file of every committed version is read back: the cost grows with the number of versions
+BUDGET = {"quick": dict(hc.BUDGET["quick"], histories=400), "thorough": hc.BUDGET["thorough"]}
 
 RULE = ("operation histories (new/cp/mv external+internal/rm/reset/commit/upgrade/purge over 1-2 objects, all layouts, both staging "
         "placements) generated interactively against the implementation so that sources, globs and destinations hit existing paths; "
